@@ -1,15 +1,19 @@
 ---------------------------- MODULE CacheValidity_Trace ----------------------------
 (* code -> spec.  One trace (tid) = one history on a pair of real stacked repositories with a real
    cache backend.  Every event carries what was observed AFTER the step:
-     {tid, i, ev, kind,
-      w   : world read back from disk   {eb:{cid,inh,mt}, ecl:{m:{a:{cid,nest,mt},b:..}, o:{..}}},
+     {tid, i, ev, kind, pkg ("p1"/"p2": the package read / edited / stripped, "-" otherwise),
+      w   : world read back from disk AS THE PACKAGE pkg SEES IT
+            {eb:{cid,inh,mt}, ecl:{m:{a:{cid,nest,mt},b:..}, o:{..}}}   (eb of p1 when pkg = "-"),
       regen, failed, result:{eb:{cid,inh,nest}, ecl:[{name,c}]}     (ev = "Read" only)
-      en  : the cache entry read back from the cache file
-            {present, chf:{c,t}, ecl:[{name,chf,dir}], hasInherit, data:{eb, ecl:[..]}} }
+      ens : {p1:entry, p2:entry} the cache entries read back from the cache files
+            entry = {present, chf:{c,t}, ecl:[{name,chf,dir}], hasInherit, data:{eb, ecl:[..]}} }
+   A session that reads several packages through the same repository / eclass-cache objects is
+   recorded as one Read event per package, in order (entries are read back after each).
    i = 1 starts from an empty cache.  Each step is judged from the previously OBSERVED entry
    (re-synchronising), so one deviation does not hide the rest of the history.              *)
 EXTENDS CacheValidity, TraceLib
-VARIABLES l, en
+VARIABLES l, ens
+PkgNames == {"p1", "p2"}
 
 ObsData(d)  == [eb |-> d.eb, ecl |-> AsSet(d.ecl)]
 ObsEntry(o) == [present |-> o.present, chf |-> o.chf, ecl |-> AsSet(o.ecl), hasInherit |-> o.hasInherit,
@@ -22,7 +26,7 @@ JudgeRead(cur, e) ==
         legacy == Legacy(cur)
         canr   == CanRegen(e.w)
         res    == ObsData(e.result)
-        after  == ObsEntry(e.en)
+        after  == ObsEntry(e.ens[e.pkg])
     IN  Clause(~e.regen /\ ~valid, "UsedWhenStale")
         \cup Clause(e.regen /\ valid /\ ~legacy, "RegeneratedWhenValid")
         \cup Clause(~e.regen /\ ~e.failed /\ valid /\ res # cur.data, "ResultNotCached")
@@ -33,22 +37,21 @@ JudgeRead(cur, e) ==
         \cup Clause(e.regen /\ e.failed /\ after.present, "StaleEntryKept")
         \cup Clause(~e.regen /\ ~e.failed /\ after # cur, "EntryChangedOnHit")
 
-\* edits are performed by the driver, not by pkgcore: they must not touch the cache entry
+\* edits are performed by the driver, not by pkgcore: they must not touch the cache entries
 JudgeEdit(cur, e) ==
-    LET after == ObsEntry(e.en) IN
-    IF e.ev = "StripInherit"
-    THEN Clause(~(cur.present /\ cur.hasInherit) \/ after # [cur EXCEPT !.hasInherit = FALSE], "OutsideDomain")
-    ELSE Clause(after # cur, "OutsideDomain")
+    LET after == [p \in PkgNames |-> ObsEntry(e.ens[p])]
+        want  == IF e.ev = "StripInherit" THEN [cur EXCEPT ![e.pkg].hasInherit = FALSE] ELSE cur
+    IN Clause((e.ev = "StripInherit" /\ ~(cur[e.pkg].present /\ cur[e.pkg].hasInherit)) \/ after # want, "OutsideDomain")
 
-Judge(cur, e) == IF e.ev = "Read" THEN JudgeRead(cur, e) ELSE JudgeEdit(cur, e)
+Judge(cur, e) == IF e.ev = "Read" THEN JudgeRead(cur[e.pkg], e) ELSE JudgeEdit(cur, e)
 
-TraceInit == l = 0 /\ en = AbsentEntry("md5")
+TraceInit == l = 0 /\ ens = [p \in PkgNames |-> AbsentEntry("md5")]
 TraceNext == /\ l < Len(Tr)
              /\ l' = l + 1
              /\ LET e == Tr[l']
-                    cur == IF e.i = 1 THEN AbsentEntry(e.kind) ELSE en
+                    cur == IF e.i = 1 THEN [p \in PkgNames |-> AbsentEntry(e.kind)] ELSE ens
                 IN /\ Report(e.tid, e.i, Judge(cur, e))
-                   /\ en' = ObsEntry(e.en)
+                   /\ ens' = [p \in PkgNames |-> ObsEntry(e.ens[p])]
              /\ EndMark(l')
-TraceSpec == TraceInit /\ [][TraceNext]_<<l, en>>
+TraceSpec == TraceInit /\ [][TraceNext]_<<l, ens>>
 =============================================================================
